@@ -1255,7 +1255,7 @@ func (r *replicateChannelHandler) getTSManagerChannelKey(channelName string) str
 
 func (r *replicateChannelHandler) innerHandleReplicateMsg(forward bool, msg *api.ReplicateMsg) {
 	msgPack := msg.MsgPack
-	p := r.handlePack(forward, msgPack, msg.TaskID)
+	p := r.handlePack(forward, msgPack, msg.TaskID, msg.PChannelName)
 	if p == api.EmptyMsgPack {
 		return
 	}
@@ -1444,7 +1444,7 @@ func isSupportedMsgType(msgType commonpb.MsgType) bool {
 		msgType == commonpb.MsgType_Import
 }
 
-func (r *replicateChannelHandler) handlePack(forward bool, pack *msgstream.MsgPack, taskID string) *api.ReplicateMsg {
+func (r *replicateChannelHandler) handlePack(forward bool, pack *msgstream.MsgPack, taskID string, streamSourcePChannel string) *api.ReplicateMsg {
 	sort.Slice(pack.Msgs, func(i, j int) bool {
 		return pack.Msgs[i].BeginTs() < pack.Msgs[j].BeginTs() ||
 			(pack.Msgs[i].BeginTs() == pack.Msgs[j].BeginTs() && pack.Msgs[i].Type() == commonpb.MsgType_Delete)
@@ -1699,6 +1699,11 @@ func (r *replicateChannelHandler) handlePack(forward bool, pack *msgstream.MsgPa
 		}
 		originPosition := msg.Position()
 		originPositionPChannel := funcutil.ToPhysicalChannel(originPosition.GetChannelName())
+		if originPositionPChannel == "" {
+			// the msg dispatcher doesn't fill the position of the messages which are consumed normally,
+			// the pack has been read from the source channel of the stream
+			originPositionPChannel = streamSourcePChannel
+		}
 		streamPChannel = originPositionPChannel
 		positionChannel := info.PChannel
 		if IsVirtualChannel(originPosition.GetChannelName()) {
